@@ -211,3 +211,123 @@ func (s *zzSeq) zzAdvance(concrete bool) {
 	offs := []int64{0, 999_999_999, 1_000_000_000, 1_700_000_000, 2_000_000_000, 2_500_000_000}
 	s.env.clk.now += offs[vChoice("dt", len(offs))]
 }
+
+func init() { vRegister("ZZ_C11_Bulk", ZZ_C11_Bulk) }
+
+// ZZ_C11_Bulk: the bulk variants. Keys 1 and 2 are present, key 3 is absent; the clock advances by a symbolic amount.
+// via=0: BulkRefresh([1,2,3]) — exactly one message on the channel with exactly one result per key; via=1:
+// BulkGet([1,2]) — stale entries are served with the value cached at that moment and reloaded through the executor,
+// fresh entries trigger nothing. The bulk reload's outcome is chosen by the engine: every key supplied, key 2 missing,
+// every key missing (empty or nil map, no error), or an error (with a partial or nil map). Afterwards: supplied keys hold
+// the reloaded value, keys missing from a successful reload are removed, a failed reload leaves value untouched.
+func ZZ_C11_Bulk() {
+	cfg := zzCfgFromParams()
+	s := zzNewSeq(cfg, "c11b")
+	c := s.env.c
+	s.env.clk.now = zzTime("t0")
+	s.step(zzOpSet, 1, "c11b.prefix")
+	s.step(zzOpSet, 2, "c11b.prefix")
+	s.advance()
+	vAssume(s.present(1) && s.present(2))
+	via := vChoice("via", 2)
+	mode := vChoice("reload", 6)
+	rnames := []string{"full", "partial", "error_partial", "error_nil", "empty_ok", "nil_ok"}
+	vias := []string{"BulkRefresh", "BulkGet"}
+	vScenario(vias[via] + ";reload=" + rnames[mode])
+	stale := [3]bool{false, s.m[1].ref <= s.now(), s.m[2].ref <= s.now()}
+	old := [3]int{0, s.m[1].val, s.m[2].val}
+	n1, n2, n3 := s.fresh(), s.fresh(), s.fresh()
+	bl := &zzBulkLoader{
+		load: func(keys []int) (map[int]int, error) { return map[int]int{3: n3}, nil },
+		reload: func(keys []int) (map[int]int, error) {
+			res := map[int]int{}
+			switch mode {
+			case 0:
+				res[1], res[2] = n1, n2
+			case 1, 2:
+				res[1] = n1
+			case 3:
+				return nil, zzErrLoad
+			case 4:
+				return res, nil
+			case 5:
+				return nil, nil
+			}
+			if mode == 2 {
+				return res, zzErrLoad
+			}
+			return res, nil
+		},
+	}
+	failed := mode == 2 || mode == 3
+	supplied := [3]bool{false, mode <= 2, mode == 0}
+	var reloaded [3]bool // which keys the reload covers
+	if via == 0 {
+		ch := c.BulkRefresh(context.Background(), []int{1, 2, 3}, bl)
+		vAssert(ch != nil, "c11b.channel_when_configured")
+		if s.env.cfg.deferred {
+			vAssert(len(ch) == 0, "c11b.no_result_before_executor_runs")
+			e, ok := c.GetEntryQuietly(1)
+			vAssert(ok && e.Value == old[1], "c11b.pending_reload_serves_old_value")
+			s.env.ex.Run()
+		}
+		vAssert(len(ch) == 1, "c11b.exactly_one_message")
+		rs := <-ch
+		vAssert(len(ch) == 0, "c11b.exactly_one_message_after_receive")
+		var seen [4]int
+		for _, r := range rs {
+			vAssert(r.Key >= 1 && r.Key <= 3, "c11b.result_key_range")
+			if r.Key < 1 || r.Key > 3 {
+				continue
+			}
+			seen[r.Key]++
+			switch {
+			case r.Key == 3:
+				vAssert(r.Err == nil && r.Value == n3, "c11b.absent_key_is_loaded")
+			case failed:
+				vAssert(r.Err == zzErrLoad, "c11b.result_error")
+			case supplied[r.Key]:
+				want := n1
+				if r.Key == 2 {
+					want = n2
+				}
+				vAssert(r.Err == nil && r.Value == want, "c11b.result_value")
+			default:
+				vAssert(errors.Is(r.Err, ErrNotFound), "c11b.result_notfound")
+			}
+		}
+		vAssert(seen[1] == 1 && seen[2] == 1 && seen[3] == 1 && len(rs) == 3, "c11b.exactly_one_result_per_key")
+		vAssert(bl.reloads == 1 && bl.reloadKeys[1] == 1 && bl.reloadKeys[2] == 1 && bl.reloadKeys[3] == 0, "c11b.present_keys_use_one_bulk_reload")
+		vAssert(bl.loads == 1 && bl.loadKeys[3] == 1 && bl.loadKeys[1] == 0 && bl.loadKeys[2] == 0, "c11b.absent_key_uses_bulk_load")
+		reloaded = [3]bool{false, true, true}
+	} else {
+		got, err := c.BulkGet(context.Background(), []int{1, 2}, bl)
+		vAssert(err == nil && len(got) == 2 && got[1] == old[1] && got[2] == old[2], "c11b.bulkget_returns_values_cached_at_that_moment")
+		vAssert(bl.loads == 0, "c11b.present_entries_never_call_bulkload")
+		if s.env.cfg.deferred {
+			vAssert(bl.reloads == 0, "c11b.deferred_reload_not_run_yet")
+			s.env.ex.Run()
+		}
+		if !stale[1] && !stale[2] {
+			vAssert(bl.reloads == 0, "c11b.fresh_reads_trigger_nothing")
+		} else {
+			vAssert(bl.reloads == 1 && (bl.reloadKeys[1] == 1) == stale[1] && (bl.reloadKeys[2] == 1) == stale[2], "c11b.one_bulk_reload_for_exactly_the_stale_keys")
+		}
+		reloaded = stale
+	}
+	for k := 1; k <= 2; k++ {
+		e, ok := c.GetEntryQuietly(k)
+		want := n1
+		if k == 2 {
+			want = n2
+		}
+		switch {
+		case !reloaded[k] || failed:
+			vAssert(ok && e.Value == old[k], "c11b.failed_or_no_reload_leaves_value")
+		case supplied[k]:
+			vAssert(ok && e.Value == want, "c11b.successful_reload_replaces")
+		default:
+			vAssert(!ok, "c11b.notfound_reload_removes")
+		}
+	}
+}
